@@ -1365,17 +1365,35 @@ def custom_vjp(
     scopes_treedef = None
     # JAX may trace both `f` and `f_fwd`: the rng counters are shared with the
     # outer scopes, so both traces start from the counts seen on entry.
+    def copy_counts(counters):
+      return {
+        k: copy_counts(v) if isinstance(v, dict) else v
+        for k, v in counters.items()
+      }
+
     rng_counts = [
-      dict(s.rng_counters)
+      copy_counts(s.rng_counters)
       for s in jax.tree_util.tree_leaves(
         scope_fn((grad_variables, other_variables), rng_groups)
       )
     ]
 
+    def restore_counts(counters, saved):
+      # in place: child scopes alias the nested counter dicts
+      for k in list(counters):
+        if k not in saved:
+          del counters[k]
+      for k, v in saved.items():
+        if isinstance(v, dict):
+          if not isinstance(counters.get(k), dict):
+            counters[k] = {}
+          restore_counts(counters[k], v)
+        else:
+          counters[k] = v
+
     def reset_rng_counts(scopes):
       for s, counts in zip(jax.tree_util.tree_leaves(scopes), rng_counts):
-        s.rng_counters.clear()
-        s.rng_counters.update(counts)
+        restore_counts(s.rng_counters, counts)
 
     def f(grad_variables, *args):
       scope = scope_fn((grad_variables, other_variables), rng_groups)
